@@ -58,8 +58,34 @@ func routerSeq(rng *rand.Rand, w *Writer) {
 			ops = append(ops, fmt.Sprintf("P%d:%d", id, ev))
 		}
 	}
-	// let the readers drain (buffered channels), then read what each got
-	time.Sleep(3 * time.Millisecond)
+	// Publish has returned for every event, so each delivered event sits in a subscription's buffer or
+	// with its reader: wait until every buffer is empty and the readers' totals have stopped moving
+	total := func() int {
+		n := 0
+		for _, s := range subs {
+			s.mu.Lock()
+			n += len(s.got)
+			s.mu.Unlock()
+		}
+		return n
+	}
+	stable, last := 0, -1
+	for i := 0; i < 2000 && stable < 3; i++ {
+		empty := true
+		for _, s := range subs {
+			if len(s.ch) != 0 {
+				empty = false
+			}
+		}
+		t := total()
+		if empty && t == last {
+			stable++
+		} else {
+			stable = 0
+		}
+		last = t
+		time.Sleep(time.Millisecond)
+	}
 	var obs []string
 	for _, s := range subs {
 		closed := 0
